@@ -250,6 +250,17 @@ FamOrd2 ==
 \* stage 6: WITH pipelines, UNWIND, UNION
 WithO(items, w, order, skip, limit) == [With(items, w) EXCEPT !.order = order, !.skip = skip, !.limit = limit]
 LitList(vs) == ListX([i \in DOMAIN vs |-> Lit(vs[i])])
+\* order keys that are expressions holding a literal (identical to a projected item, which is how OrdIdx finds their
+\* column): the literal is a parameter slot of the ORDER BY position (C35) -- in the closing RETURN, in a WITH stage, and in
+\* the closing RETURN of a query whose WITH stage has an ORDER BY of its own
+eqp1 == Cmp("=", np, Lit(VInt(1)))
+eqa1 == Cmp("=", va, Lit(VInt(1)))
+FamOrdX ==
+    {Q1(<<MN, RetO(<<Item(eqp1, "b")>>, <<Ord(eqp1, asc)>>, -1, w)>>) : asc \in BOOLEAN, w \in {-1, 1}}
+    \cup {Q1(<<MN, WithO(<<Item(Var("n"), "n"), Item(eqp1, "b")>>, NoX, <<Ord(eqp1, asc)>>, -1, w), Ret(<<Item(Var("n"), ""), Item(vb, "")>>)>>) :
+              asc \in BOOLEAN, w \in {1, 2}}
+    \cup {Q1(<<MN, WithO(<<Item(Var("n"), "n"), Item(np, "a")>>, NoX, <<Ord(va, TRUE)>>, -1, 2),
+                RetO(<<Item(eqa1, "b")>>, <<Ord(eqa1, asc)>>, -1, -1)>>) : asc \in BOOLEAN}
 vx == Var("x")
 FamWith ==
     {Q1(<<MN, With(<<Item(Var("n"), "n")>>, w), RetNP>>) : w \in {Cmp("=", np, Lit(VInt(1))), IsNullX(np), NoX}}
@@ -347,7 +358,7 @@ MixLast(hasc) ==
 FamMix == {Q1(<<m>> \o s2 \o <<r>>) : m \in MixFirst, s2 \in MixSecond, r \in MixLast(FALSE)}
           \cup {Q1(<<m>> \o s2 \o <<r>>) : m \in MixFirst, s2 \in MixSecond \ {<<>>}, r \in MixLast(TRUE) \ MixLast(FALSE)}
 FamAll == FamScanL \cup FamScanW1 \cup FamScanW2 \cup FamScanI \cup FamHopD \cup FamHopP \cup FamAgg \cup FamAggHop \cup FamOpt
-          \cup FamOrd \cup FamOrd2 \cup FamWith \cup FamWithHop \cup FamUnwind \cup FamUnion \cup FamVar \cup FamShort
+          \cup FamOrd \cup FamOrd2 \cup FamOrdX \cup FamWith \cup FamWithHop \cup FamUnwind \cup FamUnion \cup FamVar \cup FamShort
 
 \* C02: templates whose plan depends on indexes (label + property predicate on the scan anchor), on the storage tier
 \* (relationship expansion, relationship / degree counts from statistics) or on the filter path (predicates that can fail)
@@ -397,6 +408,7 @@ FamOf(fm) ==
       [] fm = "opt" -> FamOpt
       [] fm = "ord" -> FamOrd
       [] fm = "ord2" -> FamOrd2
+      [] fm = "ordx" -> FamOrdX
       [] fm = "hop2L" -> FamHop2L
       [] fm = "with" -> FamWith
       [] fm = "withHop" -> FamWithHop
@@ -433,6 +445,7 @@ QuickTable ==
      FC("opt", "opt", 2, 1, LA, "one", "none", "none", {"T"}),
      FC("ord", "ord", 2, 0, L0, "mixed", "none", "none", {"T"}),
      FC("ord2", "ord2", 2, 1, L0, "two", "one", "none", {"T"}),
+     FC("ordx", "ordx", 2, 0, L0, "mixed", "none", "none", {"T"}),
      FC("with", "with", 2, 0, LA, "num", "none", "none", {"T"}),
      FC("withHop", "withHop", 2, 1, LA, "one", "none", "none", {"T"}),
      FC("unwind", "unwind", 1, 0, LA, "num", "none", "none", {"T"}),
@@ -457,6 +470,8 @@ ThoroughTable ==
      FC("ord", "ord", 2, 0, LA, "mixed", "none", "none", {"T"}),
      FC("ord3", "ord", 3, 0, L0, "num", "none", "none", {"T"}),
      FC("ord2", "ord2", 2, 1, L0, "num", "one", "none", {"T"}),
+     FC("ordx", "ordx", 2, 0, LA, "mixed", "none", "none", {"T"}),
+     FC("ordx3", "ordx", 3, 0, L0, "num", "none", "none", {"T"}),
      FC("with", "with", 2, 0, LA, "mixed", "none", "none", {"T"}),
      FC("withHop", "withHop", 2, 2, LA, "one", "none", "none", {"T"}),
      FC("unwind", "unwind", 1, 0, LA, "mixed", "none", "none", {"T"}),
